@@ -158,8 +158,13 @@ def _main_check(pid, tier, seed, print):
         elif r["verdict"] == INCONCLUSIVE:
             notes.extend(r.get("notes") or [])
 
-    # run-level reach requirements: a required monitor that never fired => inconclusive
     inconclusive_reasons = []
+    extra = {}
+    if hasattr(mod, "finalize"):        # may derive run-level counters from the folded ones
+        extra = mod.finalize(counters, sets, tier) or {}
+        for why in extra.pop("_inconclusive", []):
+            inconclusive_reasons.append(why)
+    # run-level reach requirements: a required monitor that never fired => inconclusive
     for key, minimum in (getattr(mod, "REQUIRED", {}) or {}).get(tier, {}).items():
         if counters.get(key, 0) < minimum:
             inconclusive_reasons.append(f"required counter {key}={counters.get(key, 0)} < {minimum}")
@@ -172,11 +177,6 @@ def _main_check(pid, tier, seed, print):
         inconclusive_reasons.append(f"{ninc} of {len(cases)} cases inconclusive: {notes[:3]}")
     if len(nontrivial_digests) < 2:
         inconclusive_reasons.append("fewer than 2 distinct non-trivial cases")
-    extra = {}
-    if hasattr(mod, "finalize"):
-        extra = mod.finalize(counters, sets, tier) or {}
-        for why in extra.pop("_inconclusive", []):
-            inconclusive_reasons.append(why)
 
     wall = time.time() - t0
     coverage = {
